@@ -128,18 +128,14 @@ def instances(tier):
     for nv, deg, bo, ad, r in polys:
         out.append(dict(id="poly-%dvar-deg%d-bo%d-%s" % (nv, deg, bo, "adaptive" if ad else "fixed%d" % r), kind="poly", nvar=nv, deg=deg,
                         bo=bo, adaptive=ad, riter=r, budget=dict(wall_s=80 if quick else 600, max_paths=2000)))
-    # operation histories on DiffRHS
+    # operation histories on DiffRHS: the instance fixes the first operation(s), the rest is chosen by solver variables
     L = 3 if quick else 4
+    plen = 1 if quick else 2
     for attr in (0, 1):
         for dim in (1, 2):
-            plen = 1 if dim == 1 else 2
-            if not quick:
-                plen += 1
             for pre in itertools.product(HIST_OPS, repeat=plen):
-                if dim == 2 and "J" not in pre and attr == 0 and quick:
-                    pass
                 out.append(dict(id="hist-%s-dim%d-%s" % ("attr" if attr else "noattr", dim, "".join(pre)), kind="hist", attr=bool(attr), dim=dim,
-                                prefix="".join(pre), length=L, budget=dict(wall_s=80 if quick else 600, max_paths=6000)))
+                                prefix="".join(pre), length=L, budget=dict(wall_s=80 if quick else 600, max_paths=20000)))
     return out
 
 
@@ -296,6 +292,7 @@ def _scen_affine(c, inst):
     A = [[c.real("A%d_%d" % (i, k)) for k in range(n)] for i in range(m)]
     F = [c.real("F%d" % i) for i in range(m)]
     absF = [absval(c, F[i]) for i in range(m)]
+    reference = None          # entries of the flat=False result, (i, j) -> value, once they have been checked against A
     for flat_mode in (False, True):
         P = "c16.affine.flat." if flat_mode else "c16.affine."
         rec = _Recorder(c, y0)
@@ -329,6 +326,7 @@ def _scen_affine(c, inst):
         c.check(P + "perturbs_one_input_at_a_time", rec.one_component_at_a_time())
         if not good_shape:
             continue
+        entries = {}
         for j in range(n):
             perts = rec.perturbations(j)
             c.check(P + "every_input_perturbed", len(perts) > 0, info=dict(input=j))
@@ -341,11 +339,18 @@ def _scen_affine(c, inst):
                 else:
                     idx = (np.unravel_index(i, sout) if sout else ()) + (np.unravel_index(j, sin) if sin else ())
                 got = _entry(J, tuple(int(q) for q in idx))
+                entries[(i, j)] = got
                 rs = 1
                 if not c.symbolic:
                     rs = 64 * (_fnum(F[i]) + sum(_fnum(A[i][k]) * (_fnum(y0[k]) + 1.0) for k in range(n)))
+                if flat_mode and reference is not None and (i, j) in reference:
+                    # same stencil, same steps: the flat result must be the flat=False result, re-laid-out as [i, j]
+                    c.check(P + "entry_ij_equals_unflattened_entry", c.eq(got * dmin, reference[(i, j)] * dmin, rs), info=dict(i=i, j=j))
+                    continue
                 bound = absval(c, A[i][j]) * dmin + absF[i]
                 c.check(P + "entry_ij_is_d_output_i_d_input_j", _close(c, got, A[i][j], dmin, bound, noise, rs), info=dict(i=i, j=j))
+        if not flat_mode:
+            reference = entries
 
 
 def _scen_poly(c, inst):
@@ -359,6 +364,10 @@ def _scen_poly(c, inst):
         return
     y0 = [c.real("y%d" % k) for k in range(nv)]
     y = c.array(y0).reshape((nv,))
+    if bo == 2 and deg == 3 and not inst["adaptive"]:
+        # the extrapolation only cancels the h^2 term when the levels use a geometric step sequence (see OUTSIDE)
+        for v in y0:
+            c.assume(c.any([c.eq(v, 0), c.le(Fraction(1, 2) if c.symbolic else 0.5, v), c.le(v, Fraction(-1, 2) if c.symbolic else -0.5)]))
     alphas = [a for a in itertools.product(range(deg + 1), repeat=nv) if sum(a) <= deg]
     T = [{a: c.real("T%d_%s" % (i, "".join(map(str, a)))) for a in alphas} for i in range(m)]
     rec = _Recorder(c, y0)
@@ -480,9 +489,6 @@ def _scen_hist(c, inst):
     c.note("history", "".join(ops))
     A0 = [[c.real("A0_%d_%d" % (i, k)) for k in range(n)] for i in range(n)]
     A1 = [[c.real("A1_%d_%d" % (i, k)) for k in range(n)] for i in range(n)]
-    import os
-    if n == 2 and os.environ.get("C16_A1"):
-        A1 = [[Fraction(1), Fraction(-2)], [Fraction(3), Fraction(1, 2)]] if c.symbolic else [[1.0, -2.0], [3.0, 0.5]]
     user = _UserRhs(c, A0, A1, n)
     attr_jac = None
     if inst["attr"]:
@@ -492,15 +498,17 @@ def _scen_hist(c, inst):
     if st != "ok":
         c.check("c16.hist.constructs", False, info=repr(rhs))
         return
-    hooked = None                 # spec state: the function attached by hook / assignment, None after unhook
+    # ---- specification state
+    hooked = None                 # the function attached by hook / assignment, None after unhook
     all_jacs = [attr_jac] if attr_jac is not None else []
     answered = 0
-    # bookkeeping for the known-finding regions (history shape only, no peeking into the object)
+    # ---- bookkeeping that only delimits the two known-finding regions (which histories trigger S15)
     requests_made = 0
-    unhook_pending = False        # unhook_jacobian_call() after >= 1 request, no hook/assignment since
-    last_fd_time = None           # time of the last request answered by finite differences (symbolic)
-    base_order_pending = False    # set_jac_base_order() issued while finite differences were active, no request at t != 0 since
-    fd_active = False             # the last answered request was answered by finite differences and nothing was attached since
+    unhook_pending = False        # unhook_jacobian_call() issued after >= 1 request; nothing attached / rebuilt / answered since
+    fd_mode = False               # requests are being answered by finite differences (first request had nothing attached, no hook since)
+    fd_time = None                # time at which the finite-difference wrapper was last built (0 after set_jac_base_order)
+    base_order_pending = False    # set_jac_base_order() issued in finite-difference mode; every request since was at t == 0
+    P = "c16.hist."
     for k, op in enumerate(ops):
         if op in ("H", "A"):
             fn = _UserJac(c, "userjac%d" % k, n)
@@ -509,43 +517,42 @@ def _scen_hist(c, inst):
                 st, r = run(rhs.hook_jacobian_call, fn)
             else:
                 st, r = run(setattr, rhs, "jac", fn)
-            c.check("c16.hist.attach_returns", st == "ok", info=dict(op=op, pos=k, err=repr(r)))
+            c.check(P + "attach_returns", st == "ok", info=dict(op=op, pos=k, err=repr(r)))
             hooked = fn
             unhook_pending = False
             base_order_pending = False
-            fd_active = False
+            fd_mode = False
             continue
         if op == "U":
             st, r = run(rhs.unhook_jacobian_call)
-            c.check("c16.hist.detach_returns", st == "ok", info=dict(pos=k, err=repr(r)))
+            c.check(P + "detach_returns", st == "ok", info=dict(pos=k, err=repr(r)))
             hooked = None
             if requests_made > 0:
                 unhook_pending = True
             continue
         if op == "B":
             st, r = run(rhs.set_jac_base_order, 4)
-            c.check("c16.hist.set_base_order_returns", st == "ok", info=dict(pos=k, err=repr(r)))
-            if fd_active:
+            c.check(P + "set_base_order_returns", st == "ok", info=dict(pos=k, err=repr(r)))
+            if fd_mode:
                 base_order_pending = True
-                unhook_pending = False        # the wrapper is rebuilt: repairs the dangling None
+                unhook_pending = False        # the wrapper is rebuilt, which also repairs a dangling None
+                fd_time = 0
             continue
-        # ---- a Jacobian request at a fresh symbolic time and state
+        # ---- a Jacobian request at a fresh symbolic time (and state)
         t = c.real("t%d" % k)
-        y0 = [c.real("y%d_%d" % (k, q)) for q in range(n)]
-        if n == 2 and os.environ.get("C16_Y"):
-            y0 = [Fraction(1 + k), Fraction(-2 + k, 2)]
+        if n == 1:
+            y0 = [c.real("y%d_%d" % (k, q)) for q in range(n)]
+        else:
+            y0 = [0] * n if c.symbolic else [0.0] * n      # dim 2: zero state (layout / time only, see BOUNDS)
         y = c.array(y0).reshape((n,))
         n_rhs0 = len(user.calls)
         n_jac0 = {id(f): len(f.calls) for f in all_jacs}
         expected = hooked if hooked is not None else attr_jac
-        P = "c16.hist."
         info = dict(history="".join(ops), pos=k)
         reg_ret = {}
         if unhook_pending:
-            if expected is None and last_fd_time is not None and fd_active:
-                reg_ret[K_UNHOOK] = c.eq(t, last_fd_time)
-            else:
-                reg_ret[K_UNHOOK] = True
+            # S15(i): after unhook the stored function is None; in finite-difference mode the wrapper is only rebuilt when t differs
+            reg_ret[K_UNHOOK] = c.eq(t, fd_time) if fd_mode else True
         requests_made += 1
         st, J = run(rhs.jac, t, y)
         c.check(P + "request_returns", st == "ok", info=dict(info, err=repr(J) if st == "exc" else st), regions=reg_ret)
@@ -566,28 +573,28 @@ def _scen_hist(c, inst):
                 same = J is want or (_shape_of(J) == (n, n) and bool(c.all([c.eq(a, b) for a, b in zip(flat(c, J), flat(c, want))])))
                 c.check(P + "attached_user_jacobian_result_returned", same, info=info)
                 c.check(P + "attached_user_jacobian_gets_requested_t_y", c.all([c.eq(tc, t)] + [c.eq(a, b) for a, b in zip(flat(c, yc), y0)]), info=info)
-            fd_active = False
-            base_order_pending = False
             continue
-        # ---- finite differences expected
+        # ---- nothing attached: finite differences of the right-hand side at (t, y) expected
         used_user = [f for f in all_jacs if len(f.calls) != n_jac0[id(f)]]
         c.check(P + "detached_user_jacobian_not_called", not used_user, info=info)
         reg_shape = {}
         if base_order_pending:
+            # S15(ii): set_jac_base_order installs a flat=True wrapper frozen at t = 0 which is kept while requests come at t == 0
             reg_shape[K_BASEORDER] = c.eq(t, 0)
         good_shape = _shape_of(J) == (n, n)
         c.check(P + "fd_shape", good_shape, info=dict(info, got=list(_shape_of(J))), regions=reg_shape)
-        c.check(P + "fd_evaluates_rhs", len(new_calls) > 0, info=info, regions=reg_shape)
+        c.check(P + "fd_evaluates_rhs", len(new_calls) > 0, info=info)
         c.check(P + "fd_rhs_at_requested_time", c.all([c.eq(tc, t) for tc, _ in new_calls]), info=info)
         rec = _Recorder(c, y0)
         for _, yf in new_calls:
             rec.record(yf)
-        c.check(P + "fd_rhs_at_requested_state", rec.one_component_at_a_time() and any(all(_is_zero(c, v) for v in d) for d in rec.dev),
-                info=info, regions=reg_shape)
-        fd_active = True
-        last_fd_time = t
-        base_order_pending = False
-        if not good_shape or not new_calls:
+        c.check(P + "fd_rhs_at_requested_state", rec.one_component_at_a_time() and any(all(_is_zero(c, v) for v in d) for d in rec.dev), info=info)
+        fd_mode = True
+        if base_order_pending:
+            base_order_pending = bool(c.eq(t, 0))      # decided already by the code's own `t != jac_time` test: no new fork
+        fd_time = 0 if base_order_pending else t
+        Jf = flat(c, J)
+        if len(Jf) != n * n or not new_calls:
             continue
         G = [[A0[i][q] + t * A1[i][q] for q in range(n)] for i in range(n)]
         Fv = [sum(G[i][q] * y0[q] for q in range(n)) for i in range(n)]
@@ -602,7 +609,7 @@ def _scen_hist(c, inst):
                 if not c.symbolic:
                     rs = 64 * sum(_fnum(G[i][q]) * (_fnum(y0[q]) + 1.0) for q in range(n))
                 bound = absval(c, G[i][j]) * dmin + absval(c, Fv[i])
-                c.check(P + "fd_entry_ij_for_requested_time", _close(c, J[i, j], G[i][j], dmin, bound, noise, rs), info=dict(info, i=i, j=j))
+                c.check(P + "fd_entry_ij_for_requested_time", _close(c, Jf[i * n + j], G[i][j], dmin, bound, noise, rs), info=dict(info, i=i, j=j))
 
 
 def scenario(c, inst):
